@@ -21,7 +21,7 @@ def shell_block(K, fy, priors, final, jname, cname, rel='JRel'):
         a=' '.join(env[x] for x in args)
         if h=='CS_Photo_Partial':
             L.append('    have t%d := ht 0 (by decide) (by decide)'%i)
-            L.append('    have c%d := JCatchRel.of_rel (java_eq_c_CS_Photo_Partial T Z 0 hZ (by decide) E Slot.null rfl %s.1 %s.2.1 %s.2.2 (Or.inl (by decide)))'%(i,dec(0),dec(0),dec(0)))
+            L.append('    have c%d := JCatchRel.of_rel (java_eq_c_CS_Photo_Partial T Z 0 hZ (by decide) E Slot.null rfl %s.1 %s.2.1 %s.2.2)'%(i,dec(0),dec(0),dec(0)))
         else:
             L.append('    have t%d := jtame_%s T Z hZ E %s hz (ht %d (by decide) (by decide))'%(i,h,a,ks))
             L.append('    have c%d := JCatchRel.of_rel (java_eq_c_%s T Z hZ E %s Slot.null rfl %s)'%(i,h,a,dec(ks)))
